@@ -7,6 +7,7 @@ S=${SEED_SCRATCH:-/tmp/seedchk}
 mkdir -p $S
 rsync -a --delete --exclude target --exclude .git /repo/ $S/repo/
 ( cd $S/repo && patch -p1 -s < "$PATCH" ) || { echo "PATCH DID NOT APPLY"; exit 3; }
-rsync -a --delete --exclude 'target*' /verif/harness/ $S/harness/
+# the COMMITTED harness (the working tree may be mid-edit while the queue daemons run)
+rm -rf $S/harness.new && mkdir -p $S/harness.new && git -C /verif archive HEAD harness | tar -x -C $S/harness.new && rsync -a --delete --exclude 'target*' $S/harness.new/harness/ $S/harness/ && rm -rf $S/harness.new
 sed -i "s#path = \"/repo\"#path = \"$S/repo\"#" $S/harness/Cargo.toml
 VERIF_SKIP_ENGINES=${SKIP_ENGINES:-} VERIF_HARNESS=$S/harness VERIF_TARGET=$S/target /verif/check $PROP $TIER 2>&1 | grep -E "^(VIOLATION|KNOWN|INCONCLUSIVE|C[0-9]+ )|^  C[0-9]+:" | cut -c1-400
